@@ -4,7 +4,9 @@
    Machine: MV.C13.DrillModel ([run nm offered init ops]): the cluster manager actor with the repairs of
    fixes/C13-*.patch, [nm] = derivation of the child name.  [lp_name] is the repaired derivation
    (len(identity)-identity-ability), [dash_name] the one of the unrepaired code (identity-ability).
-   A history is any list of [Lookup i a] (a request) and [Stop i a] (the actor of the pair terminates);
+   A history is any list of [Lookup i a] (a request), [Begin i a] (the actor of the pair begins to terminate: it is
+   Terminating, still registered under its name, and the manager has not been told anything) and [Stop i a] (the actor
+   of the pair has terminated and the manager has handled the notice; with or without a [Begin] before it);
    [trace] pairs every request of the history with its answer.  The manager's mailbox serialises concurrent
    callers, so "all interleavings" are all such lists. *)
 From Coq Require Import String Ascii.
@@ -86,6 +88,44 @@ Theorem C13_members_table_sound : forall (offered : list string) (ops : list op)
 Proof. intros offered ops k c. exact (members_sound lp_name offered (fun _ => True) (fun i1 a1 i2 a2 _ _ => lp_name_inj i1 a1 i2 a2) ops k c (any_identity ops)). Qed.
 Print Assumptions C13_members_table_sound.
 
+(* ---- the window in which a member is terminating.  [Begin] is an operation of every history above, so the theorems
+        above already cover it: [C13_idempotent]'s "while it lives" ends at [Stop], not at [Begin], and
+        [C13_created_at_most_once] counts only [Stop]s — the beginning of a termination pays for no creation.  The three
+        statements below say it outright. *)
+
+(* the beginning of a termination changes nothing the manager sees: table, taken names and creation log are unchanged *)
+Theorem C13_begin_of_termination_is_invisible : forall (offered : list string) (ops : list op) (i a : string),
+  members (final lp_name offered (ops ++ [Begin i a])) = members (final lp_name offered ops) /\
+  registry (final lp_name offered (ops ++ [Begin i a])) = registry (final lp_name offered ops) /\
+  created (final lp_name offered (ops ++ [Begin i a])) = created (final lp_name offered ops).
+Proof. intros offered ops i a. exact (begin_invisible lp_name offered ops i a). Qed.
+Print Assumptions C13_begin_of_termination_is_invisible.
+
+(* a terminating member keeps its slot: after any history, every child that is terminating is still listed by the manager
+   under its own pair, its name is still taken, and it is the actor created for that pair *)
+Theorem C13_terminating_member_keeps_its_slot : forall (offered : list string) (ops : list op) (c : child),
+  In c (dying (final lp_name offered ops)) ->
+  In c (registry (final lp_name offered ops)) /\
+  exists k, In (k, c) (members (final lp_name offered ops)) /\ cname c = lp_name (fst k) (snd k) /\
+            nth_error (created (final lp_name offered ops)) (cinst c) = Some k.
+Proof. intros offered ops c. exact (dying_keeps_slot lp_name offered (fun _ => True) (fun i1 a1 i2 a2 _ _ => lp_name_inj i1 a1 i2 a2) ops c (any_identity ops)). Qed.
+Print Assumptions C13_terminating_member_keeps_its_slot.
+
+(* a lookup of (i,a) inside the window — its actor began to terminate ([Begin i a]) and has not terminated (no [Stop i a]),
+   whatever else happens around it — is answered with the reference handed out before, and creates nothing *)
+Theorem C13_lookup_while_member_terminates : forall (offered : list string) (pre mid1 mid2 post : list op) (i a : string) (c : child),
+  ~ In (Stop i a) mid1 -> ~ In (Stop i a) mid2 ->
+  nth_error (outs lp_name offered (pre ++ Lookup i a :: (mid1 ++ Begin i a :: mid2) ++ Lookup i a :: post)) (length pre) = Some (ORef c) ->
+  nth_error (outs lp_name offered (pre ++ Lookup i a :: (mid1 ++ Begin i a :: mid2) ++ Lookup i a :: post))
+            (length pre + S (length (mid1 ++ Begin i a :: mid2))) = Some (ORef c)
+  /\ created (final lp_name offered (pre ++ Lookup i a :: (mid1 ++ Begin i a :: mid2) ++ [Lookup i a])) =
+     created (final lp_name offered (pre ++ Lookup i a :: (mid1 ++ Begin i a :: mid2))).
+Proof.
+  intros offered pre mid1 mid2 post i a c.
+  exact (lookup_while_terminating lp_name offered (fun _ => True) (fun i1 a1 i2 a2 _ _ => lp_name_inj i1 a1 i2 a2) pre mid1 mid2 post i a c (any_identity _)).
+Qed.
+Print Assumptions C13_lookup_while_member_terminates.
+
 (* ---- the repaired child name determines the pair, for ALL strings *)
 Theorem C13_child_name_injective : forall i1 a1 i2 a2 : string,
   lp_name i1 a1 = lp_name i2 a2 -> i1 = i2 /\ a1 = a2.
@@ -146,7 +186,26 @@ Example C13_example_counts :
   count_created ("a", "c") (final lp_name ["c"] ops) = 2 /\ count_stops ("a", "c") ops = 1.
 Proof. vm_compute. auto. Qed.
 
-Example C13_example_no_separator : no_separator [Lookup "a" "b-c"; Lookup "b" "c"; Stop "a" "b-c"].
+(* the window: (a,c) begins to terminate, is looked up (old reference, instance 0), another pair is created meanwhile, a
+   second Begin finds nothing new to do; after the end of the termination the next lookup creates instance 2 *)
+Example C13_example_window :
+  outs lp_name ["c"]
+    [Lookup "a" "c"; Begin "a" "c"; Lookup "a" "c"; Lookup "b" "c"; Begin "a" "c"; Lookup "a" "c"; Begin "q" "c";
+     Stop "a" "c"; Lookup "a" "c"; Begin "a" "c"; Stop "a" "c"]
+  = [ORef (mkchild "1-a-c" 0); OBegin true; ORef (mkchild "1-a-c" 0); ORef (mkchild "1-b-c" 1); OBegin false;
+     ORef (mkchild "1-a-c" 0); OBegin false; OStop true; ORef (mkchild "1-a-c" 2); OBegin true; OStop true].
+Proof. vm_compute. reflexivity. Qed.
+
+(* why the window matters: a manager that forgot the pair at the BEGINNING of the termination ([begin_releasing], not the
+   machine) would find the pair's name still taken — the lookup inside the window is a panic of the manager; the machine
+   answers it with the old reference *)
+Example C13_example_release_at_begin_would_fail :
+  let s1 := fst (lookup lp_name ["c"] init "a" "c") in
+  snd (lookup lp_name ["c"] (begin_releasing s1 "a" "c") "a" "c") = OCrash /\
+  snd (lookup lp_name ["c"] (fst (begin s1 "a" "c")) "a" "c") = ORef (mkchild "1-a-c" 0).
+Proof. vm_compute. auto. Qed.
+
+Example C13_example_no_separator : no_separator [Lookup "a" "b-c"; Lookup "b" "c"; Begin "b" "c"; Stop "a" "b-c"].
 Proof. repeat constructor. Qed.
 
 (* the old derivation on the same two pairs: the second request is the manager's accident *)
